@@ -25,6 +25,10 @@ func init() {
 }
 
 func runC10(w *World, r *Report) {
+	hrTimeoutAboveTTL(w, r, "R6")
+	hrCountsCopy(w, r, "R3")
+	// arrival order inside one priority is the order of the (monotonic) clock readings (C11.R4)
+	r.Borrow(w, c11ClockKeepsMonotonicReading, map[string]string{"R4": "R5"})
 	hrQueuePriority(w, r, "R4")
 	hrConstructorAlignsWindow(w, r, "R7")
 	la := NewLockAn(w)
